@@ -388,6 +388,14 @@ class Program:
                 r = json.loads(line)
                 k = r["rec"]
                 if k == "fn":
+                    if r["path"] in self.fns:
+                        # two items whose printed paths coincide (rustc tells them apart by a disambiguator the printed path drops: the
+                        # `__SerializeWith` helper types serde's derive emits once per `serialize_with` field): both are kept
+                        n_ = 2
+                        while "%s#%d" % (r["path"], n_) in self.fns:
+                            n_ += 1
+                        r["path"] = "%s#%d" % (r["path"], n_)
+                        self.dup_paths = getattr(self, "dup_paths", []) + [r["path"]]
                     self.fns[r["path"]] = Fn(r)
                 elif k == "adt":
                     self.adts[r["path"]] = r
